@@ -39,6 +39,17 @@ VParent(ev) ==
   ELSE IF \E k \in DOMAIN ev[6] : ~SameOutcome(ev[6][k][3], FirstAncestor(a, ev[6][k][1], ev[6][k][2])) THEN "parent:first-ancestor-of-type"
   ELSE IF \E k \in DOMAIN ev[6] : ~(ev[6][k][4][1] = "v" /\ ev[6][k][4][2] = HasAncestor(a, ev[6][k][1], ev[6][k][2])) THEN "parent:has-ancestor-of-type"
   ELSE "ok"
+(* ["pids", own, ofLocationParent, ofSequence, outcome] : identifiers "N" (None), "E" (the empty string), "c", "d" given in the
+   three places an id can come from.  Only None means "not given": two different values, the empty string included, are
+   inconsistent data (ParentException); otherwise the parent carries the one value given *)
+VPids(ev) ==
+  LET given == {ev[2], ev[3], ev[4]} \ {"N"} o == ev[5] IN
+  IF Cardinality(given) > 1 THEN
+     (IF o[1] = "v" THEN "parent:built-from-inconsistent-arguments"
+      ELSE IF o[2] # "ParentException" THEN "parent:wrong-exception" ELSE "ok")
+  ELSE IF o[1] # "v" THEN "parent:refused-consistent-arguments"
+  ELSE IF o[2] # (IF given = {} THEN "N" ELSE CHOOSE g \in given : TRUE) THEN "parent:derived-attributes"
+  ELSE "ok"
 (* ["parentcert", n] : the replay covered the whole argument space *)
 VParentCert(ev) == IF ev[2] = Cardinality(ArgSpace) THEN "ok" ELSE "parent:argument-space-incomplete"
 
@@ -48,7 +59,7 @@ VSeqResult(ev) == IF ev[5] < 0 THEN "ok"
                   ELSE IF ev[4] # ev[5] \/ ev[5] # LenLoc(ev[6]) THEN "call:ill-formed-result"
                   ELSE IF ~WellFormed(ev[6], -1) THEN "call:ill-formed-result" ELSE "ok"
 
-Verdict(ev) == CASE ev[1] = "seqresult" -> VSeqResult(ev) [] ev[1] = "parent" -> VParent(ev) [] ev[1] = "parentcert" -> VParentCert(ev) [] ev[1] = "ctor" -> VCtor(ev) [] ev[1] = "call" -> VCall(ev) [] ev[1] = "result" -> VResult(ev)
+Verdict(ev) == CASE ev[1] = "seqresult" -> VSeqResult(ev) [] ev[1] = "parent" -> VParent(ev) [] ev[1] = "pids" -> VPids(ev) [] ev[1] = "parentcert" -> VParentCert(ev) [] ev[1] = "ctor" -> VCtor(ev) [] ev[1] = "call" -> VCall(ev) [] ev[1] = "result" -> VResult(ev)
                  [] OTHER -> "unknown-op"
 Bad == {i \in DOMAIN Trace : Verdict(Trace[i]) # "ok"}
 ASSUME \A i \in Bad : PrintT(<<"BAD", i, Verdict(Trace[i])>>)
